@@ -54,7 +54,7 @@ func (c16) Runs(t Tier) int {
 }
 func (c16) RecordWidths() map[string]int { return nil }
 func (c16) RequiredProbes() []string {
-	return []string{"file-build", "symlink-build", "plain-dir-build", "sharded-dir-build", "auto-sharded-dir-build", "recursive-build", "quick-builder", "fault-on-root-commit", "torn-write", "crash-between-child-and-parent", "enospc", "source-error", "multi-level-file", "nested-shards", "empty-file"}
+	return []string{"file-build", "symlink-build", "plain-dir-build", "sharded-dir-build", "auto-sharded-dir-build", "recursive-build", "recursive-rooted-at-file", "retry-after-transient-fault", "quick-builder", "fault-on-root-commit", "torn-write", "crash-between-child-and-parent", "enospc", "source-error", "multi-level-file", "nested-shards", "empty-file"}
 }
 
 type c16Scenario struct {
@@ -251,10 +251,28 @@ func (c16) Run(ts *tape.Set, tier Tier) *Result {
 			}
 		}
 		mk(dir, 0)
-		sc.Builder, sc.Spec = "BuildUnixFSRecursive", fmt.Sprintf("temp tree files=%d", nFiles)
+		rootPath := dir
+		rootKind := "directory"
+		switch r.Next() % 5 {
+		case 0: // the import is rooted at a regular file
+			buf := make([]byte, r.Next()%900)
+			for j := range buf {
+				buf[j] = byte(r.Next())
+			}
+			rootPath = filepath.Join(dir, "root.bin")
+			_ = os.WriteFile(rootPath, buf, 0o644)
+			rootKind = fmt.Sprintf("regular file of %d bytes", len(buf))
+			res.probe("recursive-rooted-at-file")
+		case 1: // ... or at a symlink
+			rootPath = filepath.Join(dir, "root.lnk")
+			_ = os.Symlink("somewhere/else", rootPath)
+			rootKind = "symlink"
+			res.probe("recursive-rooted-at-file")
+		}
+		sc.Builder, sc.Spec = "BuildUnixFSRecursive", fmt.Sprintf("temp tree files=%d rooted at a %s", nFiles, rootKind)
 		res.probe("recursive-build")
 		run = func(ls *ipld.LinkSystem, _ io.Reader) (ipld.Link, uint64, error) {
-			return builder.BuildUnixFSRecursive(dir, ls)
+			return builder.BuildUnixFSRecursive(rootPath, ls)
 		}
 	case 6:
 		judgeFaults = false
@@ -293,6 +311,7 @@ func (c16) Run(ts *tape.Set, tier Tier) *Result {
 		site, pmsg         string
 		st                 *store.Store
 		orderViolation     string
+		retry              func() outcome
 		srcFailed          bool
 		writeFaultsFired   int
 		commitsBeforeCrash int
@@ -372,6 +391,34 @@ func (c16) Run(ts *tape.Set, tier Tier) *Result {
 			o.link, _, o.err = run(&w.LS, r)
 		})
 		builder.DefaultLinksPerBlock = old
+		o.retry = func() outcome {
+			// same store, same *LinkSystem, faults gone
+			var ro outcome
+			ro.st = st
+			st.WritePolicy = nil
+			st.OnCommit = func(c cid.Cid, data []byte) {
+				if ro.orderViolation != "" {
+					return
+				}
+				ls, err := blockLinks(c, data)
+				if err != nil {
+					ro.orderViolation = fmt.Sprintf("committed block %s does not decode: %v", shortCid(c), err)
+					return
+				}
+				for _, l := range ls {
+					if !E[l.KeyString()] && !st.Has(l) {
+						ro.orderViolation = fmt.Sprintf("block %s was committed while its child %s (produced by the same build) is not in the store", shortCid(c), shortCid(l))
+						return
+					}
+				}
+			}
+			old := builder.DefaultLinksPerBlock
+			builder.DefaultLinksPerBlock = width
+			ro.panicked, ro.site, ro.pmsg = guard(func() { ro.link, _, ro.err = run(&w.LS, nil) })
+			builder.DefaultLinksPerBlock = old
+			res.Execs++
+			return ro
+		}
 		if src != nil {
 			o.srcFailed = src.Failed
 		}
@@ -609,6 +656,31 @@ func (c16) Run(ts *tape.Set, tier Tier) *Result {
 		if o.err == nil && o.link == nil {
 			fail(&p, "c16/no-link-no-error", "the build returned neither a link nor an error")
 			break
+		}
+		// ---- the storage recovers and the caller retries the same build
+		// through the same link system and store (only after transient
+		// faults; a crashed or full store does not recover)
+		if fired && o.retry != nil && (p.what == "open" || p.what == "torn" || p.what == "commit") && (p.k%3 == 0 || p.k == steps[store.WCommit]-1) {
+			ro := o.retry()
+			res.probe("retry-after-transient-fault")
+			if ro.panicked {
+				fail(&p, "c16/panic@"+ro.site, "retry after the fault panicked: %s", ro.pmsg)
+				break
+			}
+			if ro.orderViolation != "" {
+				fail(&p, "c16/parent-before-child-on-retry", "on a retry after the fault: %s", ro.orderViolation)
+				res.Excerpt = excerpt(o.st.Log, 12)
+				break
+			}
+			if ro.err != nil || ro.link == nil {
+				fail(&p, "c16/retry-fails", "the store recovered but the retried build failed: link=%v err=%v", ro.link, ro.err)
+				break
+			}
+			if msg := closure(o.st, ro.link); msg != "" {
+				fail(&p, "c16/link-before-dag-committed-on-retry", "retried build returned a link but %s", msg)
+				res.Excerpt = excerpt(o.st.Log, 12)
+				break
+			}
 		}
 		if p.what == "crash" && o.st.Frozen() {
 			// restart on the durable state
